@@ -26,7 +26,10 @@ Proof. rewrite <- (slice_pre pre l 0 n). f_equal. lia. Qed.
 Lemma unpack1_enc pre s more : slot_ok 1 s = true ->
   unpack_parameter (pre ++ enc_slot 1 s ++ more) (length pre) 1 = s.
 Proof.
-  intros H. unfold unpack_parameter. cbn [Nat.mul Nat.add].
+  intros H. unfold unpack_parameter.
+  replace (1 + length pre)%nat with (length pre + 1)%nat by lia.
+  replace (2 * 1 + length pre)%nat with (length pre + 2)%nat by lia.
+  cbn [Nat.mul Nat.add].
   rewrite !slice_pre, !slice_pre0.
   destruct s as [[[v mn] mx]|]; cbn [enc_slot slot_ok] in *.
   - change (256 ^ N.of_nat 1) with 256 in H. unfold top in H. change (256 ^ N.of_nat 1 - 1) with 255 in H.
@@ -51,7 +54,8 @@ Proof.
     rewrite <- app_assoc.
     rewrite (unpack1_enc pre s (concat (map (enc_slot 1) slots) ++ more) Hs).
     specialize (IH (pre ++ enc_slot 1 s) (index + 1) more H).
-    rewrite app_length, enc_slot1_length in IH. rewrite <- app_assoc in IH. rewrite IH.
+    rewrite app_length, enc_slot1_length in IH. rewrite <- app_assoc in IH.
+    replace (3 + length pre)%nat with (length pre + 3)%nat by lia. rewrite IH.
     destruct s as [p|]; cbn [view_slots]; f_equal; lia.
 Qed.
 
@@ -111,7 +115,10 @@ Qed.
 Lemma unpack2_enc pre s more : slot_ok 2 s = true ->
   unpack_parameter (pre ++ enc_slot 2 s ++ more) (length pre) 2 = s.
 Proof.
-  intros H. unfold unpack_parameter. cbn [Nat.mul Nat.add].
+  intros H. unfold unpack_parameter.
+  replace (2 + length pre)%nat with (length pre + 2)%nat by lia.
+  replace (2 * 2 + length pre)%nat with (length pre + 4)%nat by lia.
+  cbn [Nat.mul Nat.add].
   rewrite !slice_pre, !slice_pre0.
   destruct s as [[[v mn] mx]|]; cbn [enc_slot slot_ok] in *.
   - change (256 ^ N.of_nat 2) with 65536 in H. unfold top in H. change (256 ^ N.of_nat 2 - 1) with 65535 in H.
